@@ -410,7 +410,7 @@ static void worker(int w, int W, uint64_t start)
     static vf_gen g;
     for (int root = VK_OBJ; root <= VK_ARR; root++) {
         memset(&g, 0, sizeof g);
-        g.root_kind = root; g.max_tokens = N_DOC; g.classes = cls; g.nclasses = 5; g.names = vf_names_abL; g.nnames = 3; g.max_obj_depth = 0;   /* incl. a 128-byte name */
+        g.root_kind = root; g.max_tokens = N_DOC; g.classes = cls; g.nclasses = 5; g.names = vf_names_abL; g.nnames = 4; g.max_obj_depth = 0;   /* incl. a 128-byte name */
         g.cb = on_doc;
         vf_gen_run(&g);
     }
